@@ -7,6 +7,7 @@ import NriModel.Lemmas.GenerateDevices
 import NriModel.Lemmas.GenerateMounts
 import NriModel.Lemmas.GenerateEnv
 import NriModel.Lemmas.GenerateFrame
+import NriModel.Lemmas.GenerateRepair
 
 namespace Nri.Generate
 open Nri.Api
